@@ -350,6 +350,11 @@ def replay(W, behaviour, observe_every=True):
             except Exception as ex:
                 raised = True
                 extra = {'exc': repr(ex)[:120]}
+        if n % 3 == 1 and held:
+            # ... and the caller lets go of the twins it held (every third step): what the private key holds does not depend on them
+            del held[:]
+            import gc
+            gc.collect()
         e = {'act': act, 'raised': raised}
         if raised:
             e['exc'] = (extra or {}).get('exc', '')
